@@ -175,6 +175,8 @@ func c10(r *Report) {
 			// after relayFrames returns (including deferred calls), this goroutine closes the channel the other watches,
 			// or closes a connection the other reads
 			woke := false
+			var wakers []ssa.Instruction
+			deferredWake := false
 			for _, in := range instrs(d.fn) {
 				c, isC := in.(ssa.CallInstruction)
 				if !isC || c == ssa.CallInstruction(d.call) {
@@ -186,16 +188,38 @@ func c10(r *Report) {
 					continue
 				}
 				cc := c.Common()
+				isWaker := false
 				if callee := cc.StaticCallee(); callee != nil && closesChan(callee, mk, 0) {
-					woke = true
+					isWaker = true
 				}
 				if cc.StaticCallee() == nil && !cc.IsInvoke() {
 					if mc, isMC := resolveFree(cc.Value).(*ssa.MakeClosure); isMC && closesChan(mc.Fn.(*ssa.Function), mk, 0) {
-						woke = true
+						isWaker = true
 					}
 				}
 				if b, isB := cc.Value.(*ssa.Builtin); isB && b.Name() == "close" && resolveFree(cc.Args[0]) == ssa.Value(mk) {
+					isWaker = true
+				}
+				if isWaker {
 					woke = true
+					wakers = append(wakers, in)
+					if isDefer && in.Block() == d.fn.Blocks[0] {
+						deferredWake = true
+					}
+				}
+			}
+			// whatever way relayFrames returned (error or clean EOF), the wake-up happens
+			if woke && !deferredWake {
+				gd := G(d.fn)
+				if p := gd.PathTo([]ssa.Instruction{d.call}, false, func(i ssa.Instruction) bool {
+					for _, wk := range wakers {
+						if wk == i {
+							return true
+						}
+					}
+					return false
+				}, isExit); p != nil {
+					woke = false
 				}
 			}
 			if !woke {
